@@ -161,6 +161,8 @@ def b_str(ex, n, awaited, recv=None):
     f = z3.Function('str_of', Ref, Ref)
     t = f(coerce(x, ANY).term)
     ex.assume(Ref.is_str(t))
+    if x.ty.kind == 'obj':
+        ex.assume(z3.Implies(Ref.is_str(x.term), t == x.term))     # str(s) is s for a str
     if x.ty.kind == 'int' or (x.ty.kind == 'obj' and x.ty.cls in ('optint',)):
         inv = z3.Function('str_of^-1', Ref, Ref)
         ex.assume(inv(t) == coerce(x, ANY).term)
